@@ -152,7 +152,7 @@ def corpus_cases():
 
 def chunks(tier, seed):
     ch = [{"kind": "corpus"}]
-    nrand = {"quick": 3000, "thorough": 80000}.get(tier, 10000)
+    nrand = {"quick": 3000, "thorough": 320000}.get(tier, 10000)
     for p in range(4):
         ch.append({"kind": "exh", "part": p, "of": 4})
     per = max(1, nrand // 12)
